@@ -40,6 +40,21 @@ fn main() {
             if args.len() < 3 { usage(); }
             std::process::exit(checks::replay(&args[2]));
         }
+        "probe" => {
+            // probe <lang> <text>: print the explicit tree with indices (debugging aid)
+            let z = zoo::by_name(&args[2]).expect("zoo language");
+            let l = lang::build(&z.spec, tree_sitter_generate::OptLevel::default()).expect("build");
+            let text = args[3].replace("\\n", "\n");
+            let mut p = tree_sitter::Parser::new();
+            p.set_language(&l.language).unwrap();
+            let t = p.parse(text.as_bytes(), None).unwrap();
+            println!("{}", t.root_node().to_sexp());
+            let xt = xtree::XTree::build(&t);
+            for (i, n) in xt.nodes.iter().enumerate() {
+                println!("{}#{} {} {}", "  ".repeat(n.depth as usize), i, l.language.node_kind_for_id(n.kind_id).unwrap_or("?"), xt.brief(i));
+            }
+            if args.len() > 4 { println!("{}", xtree::internal_dump(&t)); }
+        }
         _ => usage(),
     }
 }
